@@ -225,7 +225,7 @@ def atom_models():
 MASKS = ["*.txt", "(a|b)", "x y;'z", "*.(c|h'x)", "(a'; touch /tmp/pwn; 'b)"]
 # the first seven entries keep their positions (quick-tier pairs are addressed by index); masks 3 and 4 take
 # the extglob branch of the bash renderer (`*.(..)`, `(..)`) *and* contain a quote
-OPS = [("file", None), ("file", 0), ("file", 2), ("dir", None), ("dir", 1), ("raw", None), ("nothing", None), ("file", 3), ("dir", 4), ("file", 1)]
+OPS = [("file", None), ("file", 0), ("file", 2), ("dir", None), ("dir", 1), ("raw", None), ("nothing", None), ("file", 3), ("dir", 4), ("file", 1), ("raw", 1)]
 
 
 def mk_op(ex, spec):
@@ -238,7 +238,10 @@ def mk_op(ex, spec):
         return Adt("ShellComp", vi("Dir"), (NONE if mi is None else SOME(MASKS[mi]),))
     if kind == "raw":
         fl = L.adts["ShellComp"]["variants"][vi("Raw")][1]
-        d = {"bash": atom("rawscript"), "zsh": atom("rawscript"), "fish": atom("rawscript"), "elvish": atom("rawscript")}
+        # one snippet per shell; `mi` = 1: the shell under test has no snippet (the documentation: an empty
+        # string means "not supported by this shell", nothing is emitted), the other shells have theirs
+        cur = getattr(ex, "c15_shell", None)
+        d = {sh: ("" if (mi == 1 and sh == cur) else atom("rawscript-" + sh)) for sh in ("bash", "zsh", "fish", "elvish")}
         return Adt("ShellComp", vi("Raw"), tuple(d[f] for f in fl))
     return Adt("ShellComp", vi("Nothing"), ())
 
@@ -372,8 +375,12 @@ def judge_script(shell, parts, items_n, ops, lit_used):
     seen_items = {}
     seen_ops = 0
     for ln in lines:
+        if not ln or all(isinstance(x, str) and not x.strip() for x in ln):
+            continue  # an empty line is an empty command (what a Raw completer without a snippet for this shell leaves)
         # a Raw op is a programmer supplied script: exempt, must be alone on its line
-        if len(ln) == 1 and type(ln[0]) is tuple and ln[0][2] == "rawscript":
+        if len(ln) == 1 and type(ln[0]) is tuple and isinstance(ln[0][2], str) and ln[0][2].startswith("rawscript-"):
+            if ln[0][2] != "rawscript-" + shell:
+                problems.append("the Raw snippet written for %s is emitted in the %s output" % (ln[0][2][10:], shell))
             seen_ops += 1
             continue
         try:
@@ -398,7 +405,7 @@ def judge_script(shell, parts, items_n, ops, lit_used):
                     m = re.match(r"(subst|pretty)(\d+)$", nm)
                     if m:
                         seen_items.setdefault(int(m.group(2)), set()).add(id(ln))
-    want_ops = len([o for o in ops if o[0] != "nothing"])
+    want_ops = len([o for o in ops if o[0] != "nothing" and tuple(o) != ("raw", 1)])
     if seen_ops != want_ops:
         problems.append("%d requested shell completer(s) but %d completer directive(s) in the output" % (want_ops, seen_ops))
     for i in range(items_n):
@@ -412,6 +419,7 @@ def run_render_job(job, build):
     models = atom_models()
     ex = Exec(prog, models, step_budget=400000)
     shell = job["shell"]
+    ex.c15_shell = shell
     nitems = job["items"]
     ops = [tuple(o) for o in job["ops"]]
     flags = job["flags"]  # per item (has_help, has_group)
